@@ -31,6 +31,39 @@ ORDER_FREE = {
     ("parser", "Parser._fail_ut_eof", "expected"): "membership test only",
     ("parser", "Parser.__init__", "extension.tags"): "fills the tag -> parse function lookup table; the table is only used through .get(tag)",
 }
+# the same rows keyed by where the iterated local comes from (its first binding), so that the
+# name of the local does not matter
+ORDER_FREE.update({
+    ("idtracking", "Symbols.branch_update", "=set()"): ORDER_FREE[("idtracking", "Symbols.branch_update", "stores")],
+    ("compiler", "CodeGenerator.pop_assign_tracking", "=self._assign_stack.pop()"): ORDER_FREE[("compiler", "CodeGenerator.pop_assign_tracking", "vars")],
+    ("parser", "Parser._fail_ut_eof", "=set()"): ORDER_FREE[("parser", "Parser._fail_ut_eof", "expected")],
+    ("parser", "Parser.__init__", "<in environment.iter_extensions()>.tags"): ORDER_FREE[("parser", "Parser.__init__", "extension.tags")],
+})
+
+
+def _origin(fn: ast.AST, e: ast.expr) -> str:
+    if isinstance(e, ast.Attribute):
+        return _origin(fn, e.value) + "." + e.attr
+    if isinstance(e, ast.Name):
+        params = {a.arg for a in fn.args.posonlyargs + fn.args.args + fn.args.kwonlyargs}  # type: ignore[attr-defined]
+        if e.id in params:
+            return e.id
+        first: tuple[int, str] | None = None
+        for n in ast.walk(fn):
+            o = None
+            if isinstance(n, ast.Assign) and any(isinstance(t_, ast.Name) and t_.id == e.id for t_ in n.targets):
+                o = "=" + ast.unparse(n.value)
+            elif isinstance(n, ast.AnnAssign) and isinstance(n.target, ast.Name) and n.target.id == e.id and n.value is not None:
+                o = "=" + ast.unparse(n.value)
+            elif isinstance(n, (ast.For, ast.AsyncFor, ast.comprehension)) and isinstance(n.target, ast.Name) and n.target.id == e.id:
+                o = f"<in {ast.unparse(n.iter)}>"
+            if o is not None and (first is None or getattr(n, "lineno", 10**9) < first[0]):
+                first = (getattr(n, "lineno", 10**9), o)
+        if first is not None:
+            return first[1]
+    return ast.unparse(e)
+
+
 # attributes / functions known to be sets (declared with annotations or constructed with set())
 def _is_set_ann(ann: ast.expr | None) -> bool:
     if ann is None:
@@ -157,7 +190,7 @@ def check(ctx: Ctx) -> str:
                     ok = any(g == f"len({txt}) == 1" and pol for g, pol in gs)
                     ctx.check(ok, f"{mod}:{q}:next(iter({txt}))", f"{mod}:{q}", f"next(iter({txt})) on a non-singleton", f"next(iter({txt})) picks an arbitrary element unless len({txt}) == 1", f"{m.rel}:{node.lineno}")
                     continue
-                why = ORDER_FREE.get((mod, q, txt))
+                why = ORDER_FREE.get((mod, q, txt)) or ORDER_FREE.get((mod, q, _origin(fn, target)))
                 ctx.check(why is not None, f"{mod}:{q}:{txt}", f"{mod}:{q}", f"unsorted iteration over the set `{txt}` ({kind})",
                           f"{mod}.{q} iterates the set `{txt}` ({kind}) in hash order: the order depends on PYTHONHASHSEED, and what is derived from it (dict insertion order, emitted text) makes the generated source differ between processes",
                           f"{m.rel}:{getattr(node, 'lineno', fn.lineno)}", detail={"site": f"{mod}:{q}", "iterates": txt, "why_order_free": why})
@@ -175,5 +208,16 @@ def check(ctx: Ctx) -> str:
     ctx.ok("scan", trivial=True)
     # identifiers are numbered by a counter
     ti = repo.func("compiler:CodeGenerator.temporary_identifier")
-    ctx.check("self._last_identifier += 1" in ast.unparse(ti.node) and "f't_{self._last_identifier}'" in ast.unparse(ti.node), "temporary_identifier", "compiler:CodeGenerator.temporary_identifier", "counter based", "temporary identifiers must be numbered by a counter", ti.loc())
+    incs = [a for a in ast.walk(ti.node) if isinstance(a, ast.AugAssign) and isinstance(a.op, ast.Add) and isinstance(a.value, ast.Constant) and isinstance(a.value.value, int) and a.value.value > 0 and ast.unparse(a.target).startswith("self.")]
+    rets = [r for r in ast.walk(ti.nnode) if isinstance(r, ast.Return) and r.value is not None]
+    ok_ti = len(incs) == 1 and len(rets) == 1
+    if ok_ti:
+        ctr = ast.unparse(incs[0].target)
+        v_ = rets[0].value
+        # the returned text depends on nothing but the counter: every attribute / name read is the
+        # counter itself, and the only calls are the text conversions str() / "..".format()
+        reads = {ast.unparse(x) for x in ast.walk(v_) if isinstance(x, ast.Attribute) and not (isinstance(x.value, ast.Constant))} | {x.id for x in ast.walk(v_) if isinstance(x, ast.Name)}
+        calls_ = {astq.callee(c) for c in astq.calls(v_)}
+        ok_ti = ctr in reads and reads <= {ctr, "self", "str"} and all(f == "str" or f.endswith(".format") for f in calls_)
+    ctx.check(ok_ti, "temporary_identifier", "compiler:CodeGenerator.temporary_identifier", "counter based", "temporary identifiers must be numbered by a counter", ti.loc())
     return __doc__ or ""
